@@ -1424,7 +1424,7 @@ func compileTableExpr(context *funcContext, reg int, ex *ast.TableExpr, ec *expc
 			batch := flushed/FieldsPerFlush + 1
 			c := batch
 			b := pending
-			if islast && isVarArgReturnExpr(field.Value) {
+			if islast && field.Key == nil && isVarArgReturnExpr(field.Value) {
 				b = 0
 			}
 			line := field.Value
